@@ -158,11 +158,12 @@ func runWire(sc *WireScenario) *WireResult {
 	cli := &mqtt.BaseClient{Transport: t}
 	var hmu sync.Mutex
 	handled := 0
-	cli.Handle(mqtt.HandlerFunc(func(m *mqtt.Message) {
+	handler := mqtt.HandlerFunc(func(m *mqtt.Message) {
 		hmu.Lock()
 		handled++
 		hmu.Unlock()
-	}))
+	})
+	cli.Handle(handler)
 	ctx, cancel := context.WithTimeout(context.Background(), 4*time.Second)
 	defer cancel()
 	var emu sync.Mutex
@@ -201,6 +202,7 @@ func runWire(sc *WireScenario) *WireResult {
 					_ = cli.Err()
 					_ = cli.Done()
 					_ = cli.Stats()
+					cli.Handle(handler) // (re-)registering the handler is part of the API that may be used at any time
 					runtime.Gosched()
 				}
 			}()
